@@ -141,7 +141,7 @@ impl<T: ProgProperty> PP<T> {
                 Verdict::Ok => {}
                 Verdict::Violation(f) => {
                     let cfg = c.cfgs.get(f.cfg).map(|x| x.describe(c.bits)).unwrap_or_default();
-                    return Outcome::Fail(Fail { kind: f.kind.clone(), detail: format!("[{}] {}", cfg, f.detail) });
+                    return Outcome::Fail(Fail { kind: f.kind.clone(), detail: format!("[{}] {}", cfg, f.detail), cfg: Some(f.cfg) });
                 }
                 Verdict::Inconclusive(w) => inconclusive = Some(format!("cfg {i}: {w}")),
             }
@@ -201,13 +201,18 @@ impl<T: ProgProperty> Property for PP<T> {
         let g = (ProgAst::Text(program.to_string()), input.to_vec(), bits, Sel { level: sel[0], a: sel[1], b: sel[2], c: sel[3], d: sel[4] });
         Some(self.concretize(&g))
     }
-    fn minimize(&self, c: ProgCase, kind: &str) -> ProgCase {
+    fn minimize(&self, c: ProgCase, fail: &Fail) -> ProgCase {
+        let kind = fail.kind.as_str();
         let mut scratch = Stats::default();
         let fails = |c: &ProgCase, scratch: &mut Stats| -> bool { matches!(self.check_inner(c, scratch), Outcome::Fail(f) if f.kind == kind) };
         let mut c = c;
         // keep only one failing configuration
         if c.cfgs.len() > 1 {
-            for i in 0..c.cfgs.len() {
+            let order: Vec<usize> = fail.cfg.into_iter().filter(|&i| i < c.cfgs.len()).chain(0..c.cfgs.len()).collect();
+            for i in order {
+                if crate::engine::past_deadline() {
+                    break;
+                }
                 let cand = ProgCase { cfgs: vec![c.cfgs[i]], ..c.clone() };
                 if fails(&cand, &mut scratch) {
                     c = cand;
